@@ -66,4 +66,43 @@ let err_name = function
   | EFuel -> "Fuel" | EOther -> "Other"
 let show_res f = function Ok a -> "ok " ^ f a | Err e -> "err " ^ err_name e
 
+let show_res_c f r = String.map (fun c -> if c = ' ' then ':' else c) (show_res f r)
 let split_ws s = List.filter (fun x -> x <> "") (String.split_on_char ' ' s)
+
+(* ---- DAG text format:  n node_0 ... node_{n-1}   with node = ty:bits:r1,r2 (indices of earlier nodes) ---- *)
+type node = { nty : z; nbits : bool list; nrefs : int list }
+let parse_node (t : string) : node =
+  match String.split_on_char ':' t with
+  | [ty; bits; refs] ->
+    { nty = z_of_int (int_of_string ty); nbits = bits_of_str bits;
+      nrefs = if refs = "" then [] else List.map int_of_string (String.split_on_char ',' refs) }
+  | _ -> failwith "node"
+(* returns the nodes and the remaining tokens *)
+let parse_dag (toks : string list) : node array * string list =
+  match toks with
+  | n :: rest ->
+    let n = int_of_string n in
+    let rec take k l acc = if k = 0 then (List.rev acc, l) else
+        (match l with x :: r -> take (k - 1) r (parse_node x :: acc) | [] -> failwith "dag") in
+    let (ns, rest) = take n rest [] in
+    (Array.of_list ns, rest)
+  | [] -> failwith "dag"
+(* the tree the DAG denotes (shared OCaml values) *)
+let tree_of_dag (ns : node array) : cell array =
+  let out = Array.make (Array.length ns) (Cell (Z0, [], [])) in
+  Array.iteri (fun i nd -> out.(i) <- Cell (nd.nty, nd.nbits, List.map (fun r -> out.(r)) nd.nrefs)) ns;
+  out
+(* Cell objects built bottom-up, one mk_cell per distinct node: equals [build] of the tree because
+   build (Cell t b rs) = mapM build rs >>= mk_cell t b *)
+let build_dag (ns : node array) : kcell array result =
+  let dummy = KCell (Z0, [], [], N0, [], []) in
+  let out = Array.make (Array.length ns) dummy in
+  let err = ref None in
+  Array.iteri (fun i nd ->
+      if !err = None then
+        match mk_cell_sha nd.nty nd.nbits (List.map (fun r -> out.(r)) nd.nrefs) with
+        | Ok k -> out.(i) <- k
+        | Err e -> err := Some e) ns;
+  match !err with None -> Ok out | Some e -> Err e
+let commas f l = if l = [] then "-" else String.concat "," (List.map f l)
+let dec_of_n n = int_of_n n |> string_of_int
